@@ -280,7 +280,8 @@ func exec(line string) hx.Result {
 	nontrivial := g.N >= 3 && extra && (ref.ncomps > 1 || nblocks != "1" || ref.f.gi > 0)
 	b := []string{fmt.Sprintf("n=%d", g.N), fmt.Sprintf("components=%d", ref.ncomps), "blocks=" + nblocks, fmt.Sprintf("girth=%d", ref.f.gi),
 		fmt.Sprintf("level=%d", c.Level), fmt.Sprintf("cyclomatic<=%d", gx.Bucket(ref.cyclomatic))}
-	return hx.Result{Obs: first.line(c.Level), Nontrivial: nontrivial, Buckets: b, Viol: viol}
+	// strict part: Girth of the dense/identity variant, compared with the model of Girth at every level
+	return hx.Result{Obs: first.line(c.Level) + fmt.Sprintf(" ## gi=%d", first.gi), Nontrivial: nontrivial, Buckets: b, Viol: viol}
 }
 
 func main() {
